@@ -632,6 +632,32 @@ func selectorBuildTable(r *Report, p *Program, rule string) {
 			}
 			v := E(pa.Effects[0].(*ssa.MapUpdate).Value)
 			conv := strings.Contains(v, "LabelSelectorAsSelector)(")
+			if !conv {
+				// … or through a module helper that is given this selector and returns what LabelSelectorAsSelector made of it
+				mv := pa.Effects[0].(*ssa.MapUpdate).Value
+				if ex, isEx := mv.(*ssa.Extract); isEx {
+					mv = ex.Tuple
+				}
+				if c, isC := mv.(*ssa.Call); isC {
+					if g := engine.StaticFn(c.Common()); g != nil && strings.HasPrefix(FK(g), engine.ModPrefix) && len(g.Blocks) > 0 {
+						given := false
+						for _, a := range c.Common().Args {
+							if strings.HasSuffix(E(a), "."+kind) {
+								given = true
+							}
+						}
+						all := given
+						for _, gb := range g.Blocks {
+							if rt, isR := gb.Instrs[len(gb.Instrs)-1].(*ssa.Return); isR && len(rt.Results) > 0 && !engine.ReturnsFreshError(rt) {
+								if !engine.MustDependOnCall(engine.RetVal(rt, 0), func(k string) bool { return strings.HasSuffix(k, "LabelSelectorAsSelector") }, nil) {
+									all = false
+								}
+							}
+						}
+						conv = all
+					}
+				}
+			}
 			every := strings.Contains(v, "labels.Everything)(")
 			extra := 0
 			for _, lt := range pa.Lits {
